@@ -512,7 +512,12 @@ impl<P: ProcessRun> Run<'_, P> {
         metrics: &mut RunMetrics,
     ) -> Result<(), Failed> {
         for uri in task.tal.uris() {
-            let cert = match self.load_ta(uri, task.tal.info())? {
+            let cert = match self.load_ta(uri, task.tal.info()).map_err(|err| {
+                // An error here is fatal (the store cannot be accessed).
+                // Make sure the run fails instead of just dropping the TAL.
+                self.run_failed(RunFailed::fatal());
+                err
+            })? {
                 Some(cert) => cert,
                 _ => continue,
             };
@@ -539,7 +544,10 @@ impl<P: ProcessRun> Run<'_, P> {
 
             match self.processor.process_ta(
                 task.tal, uri, &cert, cert.tal
-            )? {
+            ).map_err(|err| {
+                self.run_failed(RunFailed::fatal());
+                err
+            })? {
                 Some(processor) => {
                     return self.process_ca_task(
                         CaTask {
